@@ -24,6 +24,9 @@ Runtime monitoring of the REAL simulators and kernels; the oracle is the algebra
     simulator (same shape, precision and options, x_range x 2.5) in the same process, step it, and then step the FIRST
     object again; face / flux / update kernels get their scalar arguments alternately as python float and as real_t, and
     the face kernels see a tall, a wide and (3-D) a middle-axis-longest grid on the same generated kernel objects.
+    The public diffusion-flux kernel (ghost reset on) is called three times with the SAME flux array object, refilled with
+    garbage (ring included) in between.  Self-test: diffusion_flux_2d.py:70 ghost-ring reset of the flux performed only the first time an array object (id) is seen (sed)
+    -> VIOLATION diffusion-flux-sum!=0 with 'call_on_same_flux_array': 2.
 (b) Cell level on the compiled sub-kernels taken from the kernel registry (identified by their access
     signature on ``field``: {-1,0,1,2} e_a = front face of axis a, {-2,-1,0,1} e_a = back face): each
     run ALONE on a zeroed flux array with inv_dx = 1;  front_out[i] == -back_out[i+1]  for every
